@@ -179,3 +179,29 @@ SCEN(p_get_rem_sib, P_two, GET, 0x20, REM, 0x10)
 SCEN(n_ins4_ins400, P_nested, INS, 4, INS, 0x400)
 SCEN(n_get2_ins400, P_nested, GET, 2, INS, 0x400)
 SCEN(n_rem3_ins400, P_nested, REM, 3, INS, 0x400)
+
+// C04, three QSBR registrations, call-level schedule (no preemption needed): a reader keeps a value view while the remover exits with the
+// request pending and a third thread (which never quiesced in this epoch) exits too.  The view must stay readable until the reader quiesces.
+HARNESS(v_view_two_exits) {
+  (void)in_u8();
+  static unodb::detail::set_qsbr_per_thread_in_main_thread reg;                 // reader R
+  std::unique_ptr<qsbr_per_thread> W = std::make_unique<qsbr_per_thread>();     // writer
+  std::unique_ptr<qsbr_per_thread> T3 = std::make_unique<qsbr_per_thread>();    // third thread
+  static db_t d;
+  const std::uint64_t KA = 0x0102030405060708ULL, KB = 0x0102030405060709ULL;
+  const std::uint8_t v1 = 0x41, v2 = 0x42;
+  PROP(d.insert(KA, vv(&v1, 1)) && d.insert(KB, vv(&v2, 1)), "C04: prelude inserts succeed");
+  unodb::this_thread().quiescent();                                             // R passes a quiescent state, then takes the view
+  auto g = d.get(KA);
+  PROP(g.has_value() && g->size() == 1, "C04: the reader finds the key");
+  const std::uint8_t* view = reinterpret_cast<const std::uint8_t*>(g->begin().get());
+  std::swap(qsbr_per_thread::current_thread_instance, W);                       // writer runs: remove, then exits without a quiescent state
+  PROP(d.remove(KA), "C04: the writer removes the key");
+  unodb::this_thread().qsbr_pause();
+  std::swap(qsbr_per_thread::current_thread_instance, W);
+  T3->qsbr_pause();                                                             // the third thread, which never quiesced in this epoch, exits too
+  PROP(view[0] == 0x41, "C04: a value view stays readable and unchanged until the reader's next quiescent state, even if the remover and a third thread have exited");
+  unodb::this_thread().quiescent(); unodb::this_thread().quiescent(); unodb::this_thread().quiescent();
+  PROP(!d.get(KA).has_value() && d.get(KB).has_value(), "C04: final content");
+  WITNESS();
+}
